@@ -165,6 +165,12 @@ func c10Frames(c *Ctx, p *Prog, m *Model) {
 			prov := provenance(fs.Base, fn)
 			key := fmt.Sprintf("store:%s:%s(%s)", shortName(fn), fs.Field, fs.Kind)
 			okBase := prov == "receiver" || prov == "fresh" || (isOptClosure(fn) && strings.HasPrefix(prov, "param:"))
+			if !okBase && prov == "call:Entry.newChildLogger" && fn.Signature.Recv() != nil && strings.HasPrefix(fn.Name(), "With") {
+				// the child a With... method has just obtained from its own receiver (shape decided by R10.2)
+				if call, isCall := strip(fs.Base).(*ssa.Call); isCall && len(call.Common().Args) > 0 && call.Common().Args[0] == ssa.Value(receiver(fn)) {
+					okBase = true
+				}
+			}
 			if !okBase {
 				r.Bad("R10.1", key, p.Pos(instrPos(fs.Instr)), "field %s of ANOTHER logger is written (base: %s): an operation on one logger changes the %s of a different one", fs.Field, prov, fs.Field)
 				continue
@@ -353,6 +359,33 @@ func c10WithSet(c *Ctx, p *Prog, m *Model) {
 				}
 			}
 			applied = true
+		}
+		if !applied && len(probs) == 0 {
+			// the setter folded into the With method: the child's fields of the setter's write set are stored the
+			// method's own parameters
+			for _, sn := range withToSet[wn] {
+				ws := map[string]bool{}
+				for _, f := range setterWriteSets[sn] {
+					ws[f] = true
+				}
+				n := 0
+				for _, fs := range fieldStores(fn) {
+					if fs.Struct == "Entry" && strip(fs.Base) == child && ws[fs.Field] {
+						isPrm := false
+						for _, prm := range fn.Params[1:] {
+							if fs.Val == ssa.Value(prm) {
+								isPrm = true
+							}
+						}
+						if isPrm {
+							n++
+						}
+					}
+				}
+				if n > 0 && n == len(ws) {
+					applied = true
+				}
+			}
 		}
 		if !applied && len(probs) == 0 {
 			probs = append(probs, "the namesake setter is never applied to the child")
